@@ -1,14 +1,12 @@
 SPECIFICATION ObsSpec
 CONSTANTS
-  NumChunksSet = {}
-  MaxItemsSet = {}
-  MaxBytesSet = {}
-  EvictSet = {}
-  UsedChunks = 0
+  Configs = {}
+  UsedChunks = 128
   KeyIdx = {}
   Sizes = {}
   ImmunizeMax = 0
   KnownDefects = {}
+  WithBad = FALSE
   BothVariants = FALSE
   Log <- LogLast
 CONSTRAINT HighWater
